@@ -94,6 +94,47 @@ theorem blocks_concat_file (A : FArith) (hA : GoodArith A) (data d : List Nat) (
         subst this
         rw [blocksOf_flatten hd rest 0 hpw hlt, seekPos_zero]; rfl
 
+/-- without a delimiter (`delimiter=None` / `b''`) the blocks are the plain slices `[offset, offset+length)`
+    and still concatenate to the file -/
+theorem blocks_concat_file_nodelim (A : FArith) (hA : GoodArith A) (data : List Nat) (b : Nat) (hb : 0 < b)
+    (hsz : data.length < 2 ^ 53) :
+    ∃ blocks, fileBlocks A data [] (some b) = some blocks ∧ blocks.flatten = data := by
+  by_cases hs : data.length = 0
+  · have : data = [] := List.length_eq_zero_iff.mp hs
+    subst this
+    exact ⟨[], by simp [fileBlocks, plan, offsets, lengthsOf], rfl⟩
+  · obtain ⟨offs, ho, h0, hpw, hlt⟩ := offsets_planOK A hA data.length b (by omega) hb hsz
+    refine ⟨(offs.zip (lengthsOf data.length offs)).map fun ol => readBlockFromFile data [] ol.1 (some ol.2),
+      by simp [fileBlocks, plan, ho], ?_⟩
+    have key : ∀ (o : Nat) (rest : List Nat), (o :: rest).Pairwise (· < ·) → (∀ x ∈ o :: rest, x < data.length) →
+        (((o :: rest).zip (lengthsOf data.length (o :: rest))).map fun ol =>
+          readBlockFromFile data [] ol.1 (some ol.2)).flatten = data.drop o := by
+      intro o rest
+      induction rest generalizing o with
+      | nil =>
+        intro _ hl
+        have := hl o (by simp)
+        simp only [lengthsOf, List.zip_cons_cons, List.zip_nil_right, List.map_cons, List.map_nil, List.flatten_cons,
+          List.flatten_nil, List.append_nil, readBlockFromFile, Option.isNone_some, Bool.false_eq_true, and_false,
+          if_false, readBlock, readBlockWith, List.isEmpty_nil, if_true, readAt]
+        apply List.take_of_length_le
+        simp only [List.length_drop]; omega
+      | cons o' rest ih =>
+        intro hp hl
+        have hoo' : o < o' := (List.pairwise_cons.mp hp).1 o' (by simp)
+        have := ih o' (List.pairwise_cons.mp hp).2 (fun x hx => hl x (List.mem_cons_of_mem _ hx))
+        simp only [lengthsOf, List.zip_cons_cons, List.map_cons, List.flatten_cons] at this ⊢
+        rw [this]
+        simp only [readBlockFromFile, Option.isNone_some, Bool.false_eq_true, and_false, if_false, readBlock,
+          readBlockWith, List.isEmpty_nil, if_true, readAt]
+        exact take_sub_append_drop data (Nat.le_of_lt hoo')
+    cases offs with
+    | nil => simp at h0
+    | cons o rest =>
+      have : o = 0 := by simpa using h0
+      subst this
+      rw [key 0 rest hpw hlt]; rfl
+
 /-- `boundary_after_delimiter`: the position `seek_delimiter` moves to from an offset `pos > 0` is either
     the end of the file or directly after the first occurrence of the delimiter starting at or after
     `pos` — so the bytes just before every interior block boundary are the delimiter. -/
